@@ -10,9 +10,9 @@ use lc3_ensemble::sim::{InternalRegister, MemAccessCtx, SimFlags, Simulator};
 use std::sync::{Arc, Mutex, OnceLock};
 
 #[derive(Clone, Copy, Debug)]
-enum Op { Load, Step, Run3, ToggleStrict, ToggleReal, ToggleIgnore, ToggleFrames, BpInsertPc, BpInsertReg, BpRemovePc, AddDev, RemoveDev3, SetKb, SetDisp, MmapPc, MunmapPc, WriteReg, WriteMem, WritePsr, TypeKey, Reset, MunmapPsr, MunmapMcr }
-const OPS: [Op; 23] = [Op::Load, Op::Step, Op::Run3, Op::ToggleStrict, Op::ToggleReal, Op::ToggleIgnore, Op::ToggleFrames, Op::BpInsertPc, Op::BpInsertReg, Op::BpRemovePc,
-    Op::AddDev, Op::RemoveDev3, Op::SetKb, Op::SetDisp, Op::MmapPc, Op::MunmapPc, Op::WriteReg, Op::WriteMem, Op::WritePsr, Op::TypeKey, Op::Reset, Op::MunmapPsr, Op::MunmapMcr];
+enum Op { Load, Step, Run3, ToggleStrict, ToggleReal, ToggleIgnore, ToggleFrames, BpInsertPc, BpInsertReg, BpRemovePc, AddDev, RemoveDev3, SetKb, SetDisp, MmapPc, MunmapPc, WriteReg, WriteMem, WritePsr, TypeKey, Reset, MunmapPsr, MunmapMcr, SetInit }
+const OPS: [Op; 24] = [Op::Load, Op::Step, Op::Run3, Op::ToggleStrict, Op::ToggleReal, Op::ToggleIgnore, Op::ToggleFrames, Op::BpInsertPc, Op::BpInsertReg, Op::BpRemovePc,
+    Op::AddDev, Op::RemoveDev3, Op::SetKb, Op::SetDisp, Op::MmapPc, Op::MunmapPc, Op::WriteReg, Op::WriteMem, Op::WritePsr, Op::TypeKey, Op::Reset, Op::MunmapPsr, Op::MunmapMcr, Op::SetInit];
 
 fn program() -> &'static ObjectFile {
     static P: OnceLock<ObjectFile> = OnceLock::new();
@@ -59,6 +59,8 @@ fn apply(w: &mut World, op: Op) -> Result<(), (String, String)> {
         Op::TypeKey => { if let Some(kb) = &w.kb { kb.get_buffer().write().unwrap().push_back(b'k'); } }
         Op::MunmapPsr => { if w.sim.munmap_internal(0xFFFC) { w.psr_mapped = false; } }
         Op::MunmapMcr => { if w.sim.munmap_internal(0xFFFE) { w.mcr_mapped = false; } }
+        // the initialization strategy is a public flag like the others: switch between two deterministic strategies
+        Op::SetInit => { let alt = MachineInitStrategy::Known { value: 0x2468 }; w.sim.flags.machine_init = if w.sim.flags.machine_init == alt { w.init } else { alt }; }
         Op::Reset => return reset_and_check(w),
     }
     Ok(())
@@ -146,7 +148,7 @@ fn visit_with(h: &[u16], init: MachineInitStrategy) -> Visit {
 fn case_of(h: &[u16]) -> String { h.iter().map(|x| x.to_string()).collect::<Vec<_>>().join(",") }
 
 pub fn run(ctx: &Ctx) -> Report {
-    let mut rep = Report::new("explicit-state BFS over histories of 23 operations (load a program with calls, traps and I/O; step_in; run_with_limit(3); toggle strict / real traps / ignore privilege / debug frames; insert/remove PC and register breakpoints; add/remove a recording device; replace keyboard and display; map/unmap the PC register; unmap the default PSR and MCR mappings; host writes to a register, memory (user and OS), PSR and saved SP; type a key; reset) with reset() appended after EVERY prefix: all of 64K non-I/O memory, registers, PC, PSR, saved SP, frame depth/frames presence, instruction count and pause status must equal Simulator::new(same flags); flags, breakpoint set, MCR handle (Arc::ptr_eq), device handler (derived Debug), internal mappings and device dispatch must be kept. Known{x1357} (complete BFS) and Seeded{99} (same histories). non-trivial = states at depth >= 1");
+    let mut rep = Report::new("explicit-state BFS over histories of 24 operations (switch machine_init between two deterministic strategies; load a program with calls, traps and I/O; step_in; run_with_limit(3); toggle strict / real traps / ignore privilege / debug frames; insert/remove PC and register breakpoints; add/remove a recording device; replace keyboard and display; map/unmap the PC register; unmap the default PSR and MCR mappings; host writes to a register, memory (user and OS), PSR and saved SP; type a key; reset) with reset() appended after EVERY prefix: all of 64K non-I/O memory, registers, PC, PSR, saved SP, frame depth/frames presence, instruction count and pause status must equal Simulator::new(same flags); flags, breakpoint set, MCR handle (Arc::ptr_eq), device handler (derived Debug), internal mappings and device dispatch must be kept. Known{x1357} (complete BFS) and Seeded{99} (same histories). non-trivial = states at depth >= 1");
     let depth = ctx.pick(4usize, 7usize);
     let known = MachineInitStrategy::Known { value: 0x1357 };
     let (states, transitions, frontier, per_depth, capped) = bfs_hist(ctx, &mut rep.acc, OPS.len(), depth, &|h| format!("k:{}", case_of(h)), |h| visit_with(h, known));
